@@ -76,6 +76,8 @@ class RemoveAssertionInPytestRaisesTransformer(
                                     ),
                                 ]
                             )
+                            # this line stays (without its asserts): everything before it is kept
+                            assert_position = assert_position + 1
                             break
                     else:
                         assert_stmts.append(simple_stmt)
